@@ -124,7 +124,21 @@ def block(repo: Repo) -> List[Ob]:
             n_combine += 1
             key = f"combine#{k}"
             verdict = None
+            # combine(*chain(A, B, *G)): the chained pieces are judged one by one; a starred piece `*G` inside chain() is the chain over the
+            # elements of G (`members = (p.state_objs for p in SELECTED)`)
+            flat_args = []
             for a in n.args:
+                inner0 = a.value if isinstance(a, ast.Starred) else a
+                if isinstance(inner0, ast.Call) and (dotted_name(inner0.func) or "").split(".")[-1] == "chain" and not inner0.keywords and not (dotted_name(inner0.func) or "").endswith("from_iterable") \
+                        and len(inner0.args) > 1:
+                    for piece in inner0.args:
+                        if isinstance(piece, ast.Starred):
+                            flat_args.append(ast.Starred(value=ast.copy_location(ast.Call(func=inner0.func, args=[piece], keywords=[]), piece), ctx=ast.Load()))
+                        else:
+                            flat_args.append(ast.Starred(value=piece, ctx=ast.Load()))
+                else:
+                    flat_args.append(a)
+            for a in flat_args:
                 inner = a.value if isinstance(a, ast.Starred) else a
                 if isinstance(inner, ast.Name) and inner.id in params:
                     continue
@@ -157,7 +171,7 @@ def block(repo: Repo) -> List[Ob]:
                 (obs.append(bad("BLOCK", fi, key, props, loop, "a loop over *all* product spaces writes/acts on each of them: bystander blocks are modified")) if writes else
                  obs.append(ok("BLOCK", fi, key, props, loop, "loop over all product spaces only inspects them")))
         # (d) single-target short cut
-        if name in ("apply_operation", "apply_kraus"):
+        if name in ("apply_operation", "apply_kraus", "trace_out"):
             n_short += 1
             obs.append(_shortcut(fi, va, composite=True, props=props))
     # inside combine: consumption ranges over the selected spaces / the arguments
@@ -171,8 +185,82 @@ def block(repo: Repo) -> List[Ob]:
             raise AnalysisError(f"BLOCK: Envelope.{name} vanished")
         n_short += 1
         obs.append(_shortcut(fi, _vararg(fi.node), composite=False, props=P))
+    # (e) brought together: the product space an action is handed to holds *all* addressed subsystems on every path – a combine()/reorder()
+    # was executed, or exactly one product space was selected and the test `all(s in <it>.state_objs for s in states)` held, or one subsystem is addressed
+    for name, tprops in (("apply_operation", ("C03", "C01", "C20")), ("apply_kraus", ("C06",)), ("measure_POVM", ("C09",)), ("trace_out", ("C02",))):
+        fi = ce.methods.get(name)
+        if fi is None:
+            continue
+        va = _vararg(fi.node)
+        obs += _together(repo, fi, va, tprops)
     if n_combine < 6 or n_sel < 6 or n_short < 6:
         raise AnalysisError(f"BLOCK: combine calls {n_combine}, selections {n_sel}, short cuts {n_short} (floors 6/6/6)")
+    return obs
+
+
+def _together(repo: Repo, fi: FuncInfo, va: Optional[str], props) -> List[Ob]:
+    from ..types import Typer
+    obs: List[Ob] = []
+    if not va:
+        return obs
+    cfg = CFG(fi.node)
+    typer = Typer(repo, fi)
+    sel_names = {a.targets[0].id for a in walk_no_nested(fi.node) if isinstance(a, ast.Assign) and len(a.targets) == 1 and isinstance(a.targets[0], ast.Name)
+                 and isinstance(a.value, ast.ListComp) and _selection_ok(a.value, {va}) == ""}
+
+    def atom(e, truth, st):
+        n, allin, tog, one = st
+        if isinstance(e, ast.Compare) and len(e.ops) == 1 and isinstance(e.comparators[0], ast.Constant) and isinstance(e.comparators[0].value, int) \
+                and isinstance(e.left, ast.Call) and isinstance(e.left.func, ast.Name) and e.left.func.id == "len" and len(e.left.args) == 1 and isinstance(e.left.args[0], ast.Name):
+            arg, k, op = e.left.args[0].id, e.comparators[0].value, type(e.ops[0])
+            tests = {ast.Eq: lambda v: v == k, ast.NotEq: lambda v: v != k, ast.Gt: lambda v: v > k, ast.GtE: lambda v: v >= k, ast.Lt: lambda v: v < k, ast.LtE: lambda v: v <= k}
+            if op in tests and arg in sel_names:
+                n2 = frozenset(v for v in n if tests[op](v) == truth)
+                return [(n2, allin, tog, one)] if n2 else []
+            if op in tests and arg == va:
+                # len(states) == 1
+                vals = {True: (1,), False: (2,), None: (1, 2)}[one]
+                keep = [v for v in vals if tests[op](v) == truth]
+                if not keep:
+                    return []
+                return [(n, allin, tog, True if keep == [1] else False if keep == [2] else one)]
+        if isinstance(e, ast.Call) and isinstance(e.func, ast.Name) and e.func.id == "all" and len(e.args) == 1 and isinstance(e.args[0], (ast.GeneratorExp, ast.ListComp)):
+            g = e.args[0]
+            if len(g.generators) == 1 and src(g.generators[0].iter) == va and isinstance(g.elt, ast.Compare) and isinstance(g.elt.ops[0], ast.In) \
+                    and src(g.elt.left) == src(g.generators[0].target) and src(g.elt.comparators[0]).endswith(".state_objs"):
+                if allin is not None and allin != truth:
+                    return []
+                return [(n, truth, tog, one)]
+        return [st]
+
+    def transfer(s, lab, d, st):
+        n, allin, tog, one = st
+        if s.kind in ("test", "assert") and lab in ("T", "F"):
+            return refine(resolve_at(cfg, s, s.ast, keep=tuple(sel_names | {va})), lab == "T", st, atom)
+        for x in walk_node(s):
+            mc = method_call(x)
+            if mc and src(mc[0]) == "self" and mc[1] in ("combine", "reorder"):
+                tog = True
+        a = s.ast
+        if s.kind == "stmt" and isinstance(a, ast.Assign) and len(a.targets) == 1 and isinstance(a.targets[0], ast.Name) and a.targets[0].id in sel_names:
+            n, allin = frozenset({0, 1, 2}), None          # a fresh selection
+        return [(n, allin, tog, one)]
+
+    seen = explore(cfg, (frozenset({0, 1, 2}), None, False, None), transfer)
+    k = 0
+    for node in cfg.nodes:
+        for x in walk_node(node):
+            mc = method_call(x)
+            if not (mc and mc[1] == fi.node.name and src(mc[0]) != "self" and typer.classes(mc[0]) == {"ProductState"} and any(isinstance(a_, ast.Starred) and src(a_.value) == va for a_ in x.args)):
+                continue
+            k += 1
+            badst = [st for st in seen[node] if not (st[2] or st[3] is True or (st[0] == frozenset({1}) and st[1] is True))]
+            key = f"together#{k}"
+            (obs.append(bad("BLOCK", fi, key, props, x,
+                            f"`{src(x)[:50]}` is reachable without the addressed subsystems having been brought into one product space (no combine()/reorder() on the path and no "
+                            "test that the single selected space holds all of them): with one operand inside a product space and another still on its own the request fails instead of "
+                            "joining them")) if badst else
+             obs.append(ok("BLOCK", fi, key, props, x, "on every path the addressed subsystems share the product space the action is handed to")))
     return obs
 
 
@@ -251,7 +339,7 @@ def _shortcut(fi: FuncInfo, va: Optional[str], composite: bool, props) -> Ob:
         if any(l1 is True for (l1, _, _) in seen[n]):
             for x in walk_node(n):
                 mc = method_call(x)
-                if mc and mc[1] in ("apply_operation", "apply_kraus", "measure_POVM") and src(mc[0]) != "self":
+                if mc and mc[1] in ("apply_operation", "apply_kraus", "measure_POVM", "trace_out") and src(mc[0]) != "self":
                     deleg = True
                 if isinstance(x, ast.Return) and x.value is not None and ".state" in src(x.value):
                     deleg = True
